@@ -119,6 +119,20 @@ class Fn:
         return self.cfg.describe_path(path) if path else None
 
 
+def guarded_catch_all_(node, stop) -> bool:
+    """node lies in the body of a try with an `except Exception/BaseException/bare` handler that never raises."""
+    from ..core import try_contexts
+    for tc in try_contexts(node, stop):
+        if tc.section != "body":
+            continue
+        for h in tc.node.handlers:
+            names = {(ap(e) or "").split(".")[-1] for e in (h.type.elts if isinstance(h.type, ast.Tuple) else [h.type])} \
+                if h.type is not None else {"BaseException"}
+            if names & {"Exception", "BaseException"} and not any(isinstance(x, ast.Raise) for x in walk(h)):
+                return True
+    return False
+
+
 def factset(node, tree, expand=None):
     return {(norm(e), pol) for e, pol in facts(node, tree)}
 
@@ -222,8 +236,9 @@ class RespModel:
         self.caches = find_calls(tree, "cache_last_poll_response", into_defs=False)
         self.formats = []
         for s in stores(tree, into_defs=False):
-            if s.kind == "assign" and s.path.endswith(".response.content") and isinstance(s.value, ast.Call) \
-                    and call_attr(s.value) == "format_xml" and s.value.args and ap(s.value.args[0]) == self.parsed:
+            v_ = origin(tree, s.value) if s.value is not None else None
+            if s.kind == "assign" and s.path.endswith(".response.content") and isinstance(v_, ast.Call) \
+                    and call_attr(v_) == "format_xml" and v_.args and ap(v_.args[0]) == self.parsed:
                 self.formats.append(s)
 
     def anchor_nodes(self):
@@ -257,7 +272,24 @@ def verdict_fact(is_res, e, pol) -> Optional[str]:
 def swallow_fact(tree, hc, e, pol) -> bool:
     """Fact (e, pol) says: the handler's verdict for this event was not 'swallow'."""
     def is_res(x):
-        return x is hc or (isinstance(x, ast.Name) and single_def(tree, x.id) is hc)
+        if x is hc:
+            return True
+        if not isinstance(x, ast.Name):
+            return False
+        if single_def(tree, x.id) is hc:
+            return True
+        # `v = handler(..)` in a try, `v = False` in the handler of that try (a failed event is kept)
+        defs = [s_ for s_ in stores(tree, into_defs=False) if s_.path == x.id]
+        if not defs or any(s_.kind != "assign" for s_ in defs) or not any(s_.value is hc for s_ in defs):
+            return False
+        for s_ in defs:
+            if s_.value is hc:
+                continue
+            in_handler = any(isinstance(a, ast.ExceptHandler) and any(y is hc for b_ in parent(a).body for y in ast.walk(b_))
+                             for a in ancestors(s_.node))
+            if not (isinstance(s_.value, ast.Constant) and not s_.value.value and in_handler):
+                return False
+        return True
     return verdict_fact(is_res, e, pol) == "nottrue"
 
 
@@ -286,6 +318,26 @@ def r1(ctx, m: RespModel):
         wit = body_must_pass(fn, m.loop, fn.nodes(m.hc))
         ctx.ob("C17.R1", f"{K}: _handle_eq_event runs for every event", wit is None, fn.w(m.hc),
                "an event can pass through without being offered to the handlers", fn.describe(wit))
+        tries = [a for a in ancestors(m.hc) if isinstance(a, ast.Try) and any(a is x for x in ast.walk(m.loop))
+                 and any(y is m.hc for b_ in a.body for y in ast.walk(b_))]
+        iso = None
+        for t in tries:
+            for h in t.handlers:
+                names = {(ap(e) or "").split(".")[-1] for e in (h.type.elts if isinstance(h.type, ast.Tuple) else [h.type])} \
+                    if h.type is not None else {"BaseException"}
+                if names & {"Exception", "BaseException"} and not any(isinstance(x, ast.Raise) for x in walk(h)):
+                    iso = h
+        kept = False
+        if iso is not None:
+            # the handler keeps the event: it appends it itself, or sets the verdict the append is governed by to false
+            gov = {e.id for c in m.appends for e, pol in facts(c, m.loop) if isinstance(e, ast.Name) and not pol}
+            kept = any(call_attr(c) == "append" and c.args and ap(c.args[0]) == m.var for c in calls(iso)) or any(
+                s_.kind == "assign" and s_.path in gov and isinstance(s_.value, ast.Constant) and not s_.value.value
+                for s_ in stores(iso, into_defs=False))
+        ctx.ob("C17.R1", f"{K}: a failure while handling one event stays with that event", iso is not None and kept,
+               fn.w(m.hc), "_handle_eq_event is not called inside a per-event try that catches Exception and keeps the "
+                           "event: one event the proxy cannot decode aborts the whole response (later announcements "
+                           "unregistered, swallowed events delivered, injected events and the replay cache skipped)")
         good = [c for c in m.appends if c.args and ap(c.args[0]) == m.var]
         ctx.ob("C17.R1", f"{K}: exactly one append of the current event", len(good) == 1 and len(m.appends) == 1,
                fn.w(m.loop), f"{len(m.appends)} append call(s), {len(good)} of the loop variable")
@@ -296,6 +348,8 @@ def r1(ctx, m: RespModel):
                    f"append is governed by {[(norm(e), p) for e, p in fs]}: events are lost (or swallowed ones kept)")
     else:
         g = m.comp.generators[0]
+        ctx.ob("C17.R1", f"{K}: a failure while handling one event stays with that event", False, fn.w(m.hc),
+               "a comprehension cannot contain the per-event try: one undecodable event aborts the whole response")
         ctx.ob("C17.R1", f"{K}: comprehension yields the event itself", ap(m.comp.elt) == m.var and isinstance(m.comp, ast.ListComp),
                fn.w(m.comp), f"element expression {norm(m.comp.elt)}")
         fs = [f for i in g.ifs for f in atoms(i, True)]
@@ -353,16 +407,17 @@ def r1(ctx, m: RespModel):
         if isinstance(v, ast.Constant):
             ok = any(verdict_fact(is_hook, e, pol) == "true" for e, pol in facts(r, eq.tree))
         else:
-            ok = is_hook(v)
+            ok = is_hook(v) or (isinstance(v, ast.Compare) and len(v.ops) == 1 and isinstance(v.ops[0], (ast.Is, ast.Eq))
+                                and is_hook(v.left) and isinstance(v.comparators[0], ast.Constant)
+                                and v.comparators[0].value is True)
         ctx.ob("C17.R1", f"MITMProxyEventManager._handle_eq_event: {norm(r)} only on the addons' verdict", ok, eq.w(r),
                "an event is reported swallowed although no addon asked for it: it never reaches the viewer")
-    ctx.floor("C17.R1", "returns of _handle_eq_event", nret, 2)
+    ctx.floor("C17.R1", "returns of _handle_eq_event", nret, 1)
     # the verdict is tested by identity (`is True`): the dispatch chain must hand back the hook's own value,
     # not a truth value manufactured from it
     by_identity = any(isinstance(e, ast.Compare) and len(e.ops) == 1 and isinstance(e.ops[0], (ast.Is, ast.IsNot))
                       and isinstance(e.comparators[0], ast.Constant) and e.comparators[0].value is True
-                      and is_hook(e.left) for x in walk(eq.tree) if isinstance(x, (ast.If, ast.IfExp, ast.While))
-                      for e, _ in atoms(x.test, True) + atoms(x.test, False))
+                      and is_hook(e.left) for e in walk(eq.tree))
     if by_identity:
         start = ctx.repo.fn("AddonManager.handle_eq_event")
         chain, frontier = [start], [start]
@@ -511,7 +566,10 @@ def r2(ctx, m: RespModel):
                    "events are taken from the queue but merged only on some paths", fn.describe(wit))
         if merges and not all(x in mn for x in tn):
             between = fn.cfg.reachable(tn, avoid=lambda n: n in mn, exc=False)
-            bad = [n for n in between if n not in tn and cfg_node_fallible(fn.cfg, n)]
+            def contained(n):   # inside a try whose catch-all handler swallows the failure: the path goes on
+                e_ = cfg_node_expr(fn.cfg, n)
+                return e_ is not None and guarded_catch_all_(e_, tree)
+            bad = [n for n in between if n not in tn and cfg_node_fallible(fn.cfg, n) and not contained(n)]
             bad.sort(key=lambda n: getattr(n.ast, "lineno", 0))
             ctx.ob("C17.R2", f"{K}: nothing that can fail runs between draining the queue and the merge", not bad, fn.w(t),
                    "take_injected_events() is destructive; if "
@@ -592,12 +650,28 @@ def r2(ctx, m: RespModel):
     an = set(n for c in apps for n in inj.nodes(c))
     if an:
         before = inj.cfg.reachable([inj.cfg.entry], avoid=lambda x: x in an, exc=False)
-        bad = sorted((x for x in before if cfg_node_fallible(inj.cfg, x)
+        selfname = inj.params[0] if inj.params else "self"
+
+        def verdict_on_event(x):
+            """A step that only looks at the event itself (validation): if it fails, the injection is refused
+            and the injector is told - nothing was promised yet."""
+            e_ = cfg_node_expr(inj.cfg, x)
+            names = {n.id for n in ast.walk(e_) if isinstance(n, ast.Name)} if e_ is not None else {selfname}
+            return selfname not in names and ev in names
+        bad = sorted((x for x in before if cfg_node_fallible(inj.cfg, x) and not verdict_on_event(x)
                       and normal_path(inj.cfg, [x], lambda y: y in an) is not None),
                      key=lambda x: getattr(x.ast, "lineno", 0))
         ctx.ob("C17.R2", "inject_event queues its event before anything that can fail", not bad, inj.fi.where,
                ("`" + norm(cfg_node_expr(inj.cfg, bad[0]))[:100] + "` runs before the event is queued: if the wake-up "
                 "fails the injected event is lost although only its prompt delivery depended on it") if bad else "")
+        # an event that cannot be written as LLSD would take the whole batch down when the response is serialised
+        vals = [c for c in find_calls(inj.tree, "format_xml", into_defs=False) if c.args and ap(c.args[0]) == ev
+                and not any(isinstance(a, ast.Try) for a in ancestors(c))]
+        vn = set(n for c in vals for n in inj.nodes(c))
+        dom = normal_path(inj.cfg, [inj.cfg.entry], lambda y: y in an, lambda y: y in vn) if vn else ["none"]
+        ctx.ob("C17.R2", "inject_event refuses an event that cannot be serialised", bool(vn) and dom is None, inj.fi.where,
+               "nothing checks that the event can be written as LLSD XML before it is queued: when the poll response is "
+               "serialised the failure discards every injected event taken for that response")
 
 
 # --------------------------------------------------------------------------- R3
@@ -668,9 +742,18 @@ def r3(ctx, m: RespModel):
         extra = [x for x in extra if not payload_set(*x)]
         ctx.ob("C17.R3", f"{K}: every events-carrying response is cached", not extra and not missing, fn.w(c),
                f"extra conditions {[(norm(e), p) for e, p in extra]}, missing {[(norm(e), p) for e, p in missing]}")
-        wit = None if benign else must_pass(fn.cfg, cn, starts=m.anchor_nodes(), targets=fmt_nodes) if fmt_nodes else ["no format"]
-        ctx.ob("C17.R3", f"{K}: caching happens on every path from the filter to the rewritten body", wit is None, fn.w(c),
-               "", fn.describe(wit) if fmt_nodes else None)
+        wit = None if benign else must_pass(fn.cfg, cn, starts=m.anchor_nodes())
+        ctx.ob("C17.R3", f"{K}: caching happens on every path from the filter to the end of the handler", wit is None, fn.w(c),
+               "", fn.describe(wit))
+        ser = set(n for x in find_calls(tree, "format_xml", into_defs=False) if x.args and ap(x.args[0]) == m.parsed
+                  for n in fn.nodes(x))
+        w3 = normal_path(fn.cfg, [fn.cfg.entry], lambda n: n in set(cn), lambda n: n in ser) if ser else ["no format"]
+        ctx.ob("C17.R3", f"{K}: the response is cached only after it was serialised", bool(ser) and w3 is None, fn.w(c),
+               "cache_last_poll_response runs before format_xml(<payload>): a payload that cannot be written still lands "
+               "in the replay cache (the next repeated poll raises and goes to the simulator)",
+               fn.describe(w3) if ser else None)
+        w4 = normal_path(fn.cfg, list(ser), lambda n: n in rebind)
+        ctx.ob("C17.R3", f"{K}: {m.parsed} is not re-bound after it was serialised", w4 is None, fn.w(c), "", fn.describe(w4))
     # EventQueueManager.cache_last_poll_response / get_cached_poll_response (fields found structurally)
     cf, comp, csts, cache_attrs = discover_cache(ctx)
     for role, idx in (("ack", 1), ("payload", 2)):
@@ -794,6 +877,13 @@ def r4(ctx):
         ctx.ob("C17.R4", f"_handle_eq_event: {norm(c.func)}(...) only when an address was extracted", ok, eq.w(c),
                f"circuit address argument {norm(a) if a is not None else None} not known to be set: register_region "
                f"raises for ordinary events and aborts the whole response rewrite")
+        gifs = [x for x in ancestors(c) if isinstance(x, ast.If)]
+        gnodes = eq.cfg.nodes_for(gifs[0]) if gifs else eq.nodes(c)
+        wit = must_pass(eq.cfg, gnodes)
+        ctx.ob("C17.R4", "_handle_eq_event: every event reaches the region registration, swallowed or not", wit is None,
+               eq.w(c), "an event an addon swallows returns before the registration: when the addon re-injects it "
+                        "(injected events are not handled again) the viewer learns of a region the proxy never registered",
+               eq.describe(wit))
         ctx.ob("C17.R4", "_handle_eq_event: register_region not in a loop",
                not any(isinstance(x, (ast.For, ast.While)) for x in ancestors(c)), eq.w(c))
     _r4_template_agreement(ctx, eq)
